@@ -190,13 +190,21 @@ impl ContinuityStreamCache {
         self.append_compaction_checkpoints_best_effort_v1(event);
     }
 
+    /// Rewrites the thread's sidecars from `events` (its whole stream as replayed from the log).
+    ///
+    /// The caller holds the store's seq mutex, which every writer holds around its log append and
+    /// its `append_best_effort`: no frame reaches the log or the sidecar between the caller's log
+    /// read and the end of this rewrite. Readers (`try_replay` and the tail scans) take no lock, so
+    /// the full sidecar is written to a temporary file and renamed into place: a reader sees the
+    /// file as it was or the whole new file, never the rewrite in progress.
     pub(crate) fn rebuild_best_effort(&self, continuity_id: &str, events: &[Event]) {
         let path = self.path_for(continuity_id);
         if let Some(parent) = path.parent() {
             let _ = fs::create_dir_all(parent);
         }
 
-        let Ok(file) = File::create(&path) else {
+        let tmp_path = path.with_extension("jsonl.tmp");
+        let Ok(file) = File::create(&tmp_path) else {
             return;
         };
         #[cfg(rip_verif)]
@@ -204,6 +212,7 @@ impl ContinuityStreamCache {
         let mut writer = BufWriter::new(file);
         let mut offset: u64 = 0;
         let mut index_builder = SidecarIndexBuilderV1::new();
+        let mut complete = true;
         for event in events {
             if event.stream_kind() != StreamKind::Continuity || event.stream_id() != continuity_id {
                 continue;
@@ -212,17 +221,25 @@ impl ContinuityStreamCache {
                 continue;
             };
             index_builder.observe_event(event, offset);
-            let _ = writer.write_all(line.as_bytes());
+            complete &= writer.write_all(line.as_bytes()).is_ok();
             #[cfg(rip_verif)]
             rip_kernel::verif::point("cache.rebuild.body");
-            let _ = writer.write_all(b"\n");
+            complete &= writer.write_all(b"\n").is_ok();
             #[cfg(rip_verif)]
             rip_kernel::verif::point("cache.rebuild.nl");
             offset = offset.saturating_add(line.len() as u64 + 1);
         }
-        let _ = writer.flush();
+        complete &= writer.flush().is_ok();
+        drop(writer);
         #[cfg(rip_verif)]
         rip_kernel::verif::point("cache.rebuild.flushed");
+        if !complete || fs::rename(&tmp_path, &path).is_err() {
+            // The caller found the sidecar unusable and no whole replacement could be written:
+            // without a sidecar every reader falls back to the log.
+            let _ = fs::remove_file(&tmp_path);
+            let _ = fs::remove_file(&path);
+            return;
+        }
 
         let _ = index_builder.write_best_effort(&self.dir, continuity_id);
         #[cfg(rip_verif)]
